@@ -225,10 +225,43 @@ def calls_in(node: ast.AST) -> list[ast.Call]:
     return cs
 
 
-def may_raise(node: ast.AST) -> bool:
-    for n in _walk_no_nested(node):
-        if isinstance(n, (ast.Call, ast.Await, ast.Subscript, ast.Raise, ast.Assert)):
+# calls treated as non-raising (trusted base, stated in DESIGN.md): type
+# probes and the transport's own write/close/is_closing
+NORAISE_FUNCS = {"isinstance", "len", "bool", "callable", "id", "type"}
+NORAISE_METHODS = {"write", "close", "is_closing", "cancel", "done"}
+
+
+def _noraise_call(c: ast.Call) -> bool:
+    f = c.func
+    if isinstance(f, ast.Name) and f.id in NORAISE_FUNCS:
+        return True
+    if isinstance(f, ast.Attribute) and f.attr in NORAISE_METHODS:
+        d = _dotted(f.value) or ""
+        return d.startswith("self.") or d == "self"
+    return False
+
+
+def may_raise(node: ast.AST, exclude: tuple = ()) -> bool:
+    skip: set[int] = set()
+    for c in exclude:
+        # the inlined call raises through its own spliced body; only its
+        # argument expressions are evaluated by the enclosing statement
+        skip.add(id(c))
+    todo = [node]
+    first = True
+    while todo:
+        n = todo.pop()
+        if not first and isinstance(n, (ast.FunctionDef, ast.AsyncFunctionDef, ast.Lambda, ast.ClassDef)):
+            continue
+        first = False
+        if isinstance(n, ast.Call):
+            if id(n) in skip:
+                continue  # arguments are evaluated at the call_enter node
+            if not _noraise_call(n):
+                return True
+        elif isinstance(n, (ast.Await, ast.Subscript, ast.Raise, ast.Assert)):
             return True
+        todo.extend(ast.iter_child_nodes(n))
     return False
 
 
@@ -570,9 +603,10 @@ class Builder:
 
     def _inline_calls(self, astnode: ast.AST, preds, fr: _Frame):
         """Splice inlinable callees evaluated by ``astnode`` before it.
-        Returns new dangling preds."""
+        Returns (new dangling preds, tuple of inlined call nodes)."""
+        done: list[ast.Call] = []
         if fr.depth >= self.max_depth:
-            return preds
+            return preds, ()
         for call in calls_in(astnode):
             callee = self.resolver.resolve(fr.fi, call)
             if callee is None or callee.key in fr.active:
@@ -580,12 +614,16 @@ class Builder:
             if not self.policy(fr.fi, call, callee, fr.depth):
                 continue
             preds = self._splice(call, callee, preds, fr)
-        return preds
+            done.append(call)
+        return preds, tuple(done)
 
     def _splice(self, call: ast.Call, callee: FunctionInfo, preds, fr: _Frame):
         g = self.g
         enter = g.new("call_enter", call, fr.fi, fr.stack, callee=callee)
         self._connect(preds, enter)
+        # argument expressions are evaluated here
+        if any(may_raise(a) for a in list(call.args) + [k.value for k in call.keywords]):
+            fr.exc.route(self, enter, None, "exc")
         ret = g.new("call_return", call, fr.fi, fr.stack, callee=callee)
         g.inlined.append(callee.key)
         sub = _Frame(
@@ -604,10 +642,12 @@ class Builder:
         return [(ret.id, None)]
 
     def _simple(self, kind: str, astnode: ast.AST, preds, fr: _Frame, raises=True) -> Node:
-        preds = self._inline_calls(astnode, preds, fr)
+        preds, inl = self._inline_calls(astnode, preds, fr)
         n = self.g.new(kind, astnode, fr.fi, fr.stack)
+        if inl:
+            n.extra["inlined_calls"] = inl
         self._connect(preds, n)
-        if raises and may_raise(astnode):
+        if raises and may_raise(astnode, inl):
             fr.exc.route(self, n, None, "exc")
         return n
 
@@ -719,7 +759,7 @@ class Builder:
                 g.edge(a, fr.ret_join.id, lab if lab else "ret")
             return []
         if isinstance(st, ast.Raise):
-            preds = self._inline_calls(st, preds, fr)
+            preds, _inl = self._inline_calls(st, preds, fr)
             n = g.new("stmt", st, fr.fi, fr.stack)
             self._connect(preds, n)
             fr.exc.route(self, n, raised_type(st), "raise")
